@@ -2,6 +2,7 @@
     graph.go [Remove], [SubGraph], [Rename] and closure.go [Closure].
     Definitions only; proofs in OpsProofs.v. *)
 From Coq Require Import List NArith ZArith Bool Arith.
+From Coq Require String.
 From Verif Require Import Dag.Model.
 Import ListNotations.
 
@@ -79,3 +80,46 @@ Definition layout_from (P : lparams) (m : dmap) (L0 : lays) : vres :=
 (** [Map.Reverse] on the layer numbers *)
 Definition mirror_lays (nl : nat) (L : lays) : lays := map (fun e => (fst e, nl - 1 - snd e)) L.
 
+
+(** * The slot probe of layout.go [findY] as a skeleton (round 3, seeded change C19-g)
+
+    [findY] looks for a free row around the average of the critical inputs:
+    [offset := 0; for { if !tak[yavg+offset] { return yavg+offset };
+    if !tak[yavg-offset] { return yavg-offset }; offset++ }].  Every row it
+    hands out has just been tested against the per-layer taken map, and the
+    loop has no other exit.  The translator re-reads exactly that: how the
+    offset starts, whether the loop has an exit condition, the guarded
+    returns of the body in order, the step, and every return that is NOT
+    guarded by a test of the very row it returns. *)
+Inductive fy_probe := FYPlus | FYMinus | FYOther (text : String.string).
+
+Record fy_skel := mkFY {
+  fy_init_zero : bool;
+  fy_unbounded : bool;
+  fy_probes : list fy_probe;
+  fy_step : bool;
+  fy_unchecked_returns : list String.string;
+}.
+
+Definition fy_probe_eqb (a b : fy_probe) : bool :=
+  match a, b with FYPlus, FYPlus | FYMinus, FYMinus => true | _, _ => false end.
+
+(** the skeleton [find_y] of Model.v follows *)
+Definition fy_ok (s : fy_skel) : bool :=
+  fy_init_zero s && fy_unbounded s && fy_step s &&
+  match fy_probes s with
+  | [a; b] => fy_probe_eqb a FYPlus && fy_probe_eqb b FYMinus
+  | _ => false
+  end &&
+  match fy_unchecked_returns s with [] => true | _ => false end.
+
+(** A probe that gives up after [bound] offsets and then hands out
+    [yavg + bound] WITHOUT consulting the taken map (seeded change C19-g). *)
+Fixpoint find_y_bounded (bound : nat) (tak : list Z) (yavg offset : Z) : Z :=
+  match bound with
+  | O => (yavg + offset)%Z
+  | S b =>
+      if negb (zmem (yavg + offset) tak) then (yavg + offset)%Z
+      else if negb (zmem (yavg - offset) tak) then (yavg - offset)%Z
+      else find_y_bounded b tak yavg (offset + 1)%Z
+  end.
